@@ -1440,13 +1440,19 @@ class vTime(TimeBase):
         self.params = Parameters({'value': 'TIME'})
 
     def to_ical(self):
-        return self.dt.strftime("%H%M%S")
+        value = self.dt.strftime("%H%M%S")
+        if tzid_from_dt(self.dt) == 'UTC':
+            value += "Z"
+        return value
 
     @staticmethod
     def from_ical(ical):
-        # TODO: timezone support
+        # TODO: timezone support (TZID)
         try:
             timetuple = (int(ical[:2]), int(ical[2:4]), int(ical[4:6]))
+            if ical[6:] == 'Z':
+                # FORM #2 UTC TIME
+                return tzp.localize_utc(datetime(1970, 1, 1, *timetuple)).timetz()
             return time(*timetuple)
         except Exception:
             raise ValueError(f'Expected time, got: {ical}')
